@@ -921,6 +921,9 @@ impl ParserListener for Screen {
                 if y + count <= bottom as u32 {
                     if let Some(line) = self.buffer.remove(&y) {
                         self.buffer.insert(y + count, line);
+                    } else {
+                        // A never-written source row is blank: so is its destination.
+                        self.buffer.remove(&(y + count));
                     }
                 } else {
                     self.buffer.remove(&y);
@@ -944,6 +947,9 @@ impl ParserListener for Screen {
                 if y + count <= bottom {
                     if let Some(line) = self.buffer.remove(&(y + count)) {
                         self.buffer.insert(y, line);
+                    } else {
+                        // A never-written source row is blank: so is its destination.
+                        self.buffer.remove(&y);
                     }
                 } else {
                     self.buffer.remove(&y);
